@@ -361,7 +361,10 @@ fn sequence_bytes_required(sequence: u64) -> usize {
         mask >>= 8;
     }
 
-    0
+    // The sequence is always encoded with at least one byte (netcode standard: 1 to 8 bytes),
+    // otherwise an empty packet (denied, disconnect) with sequence 0 would be smaller than
+    // the minimum packet size accepted when decoding.
+    1
 }
 
 fn write_sequence(out: &mut impl io::Write, seq: u64) -> Result<usize, io::Error> {
